@@ -162,7 +162,9 @@ def eager_integrate_gaussianmixture(log_measure, integrand, reduced_vars):
     real_vars = frozenset(v for v in reduced_vars if v.dtype == "real")
     if reduced_vars <= real_vars:
         discrete, gaussian = log_measure.terms
-        return discrete.exp() * Integrate(gaussian, integrand, reduced_vars)
+        result = discrete.exp() * Integrate(gaussian, integrand, reduced_vars)
+        # The measure may itself be a mixture summed over some of its inputs.
+        return result.reduce(ops.add, log_measure.reduced_vars)
     return None
 
 
